@@ -41,6 +41,11 @@ def main():
                 continue
             seen.add(eng)
             digests = []
+            if eng == "owsingle":
+                env2, msg = check.build_owsingle(scratch)
+                if env2 is None:
+                    print(msg[-3000:]); return 2
+                cfg = dict(cfg, env=dict(cfg.get("env", {}), **env2))
             for cpu in (1, 4, 16):
                 for rep in (0, 1):
                     out = "%s/st.%s.%d.%d.jsonl" % (scratch, eng, cpu, rep)
